@@ -9,6 +9,8 @@ mod refcose;
 mod refiana;
 mod spaces;
 mod subject;
+#[cfg(feature = "xcheck")]
+mod xcheck;
 
 use mc::{Report, Tier};
 
@@ -80,6 +82,11 @@ fn main() {
             }
             rayon::ThreadPoolBuilder::new().num_threads(16).stack_size(16 << 20).build_global().unwrap();
             std::process::exit(spaces::replay(&args[2]));
+        }
+        #[cfg(feature = "xcheck")]
+        "xcheck" => {
+            rayon::ThreadPoolBuilder::new().num_threads(16).stack_size(16 << 20).build_global().unwrap();
+            std::process::exit(xcheck::run());
         }
         "child" => {
             std::process::exit(spaces::child(&args[2..]));
